@@ -221,3 +221,124 @@ def pushback_loops(repo: Repo, f: Func) -> List[Tuple[ast.AST, bool, str]]:
                         'the same element is taken and put back for ever'))
     return out
 
+
+
+SCAN_METHODS = {'search', 'match', 'find', 'index', 'rfind', 'rindex', 'fullmatch'}
+# methods whose result depends only on the receiver and the arguments (str / re.Match / re.Pattern / list reads)
+STABLE_METHODS = SCAN_METHODS | {'start', 'end', 'group', 'groups', 'span', 'startswith', 'endswith', 'strip', 'lstrip', 'rstrip', 'lower', 'upper',
+                                 'isspace', 'isdigit', 'isalpha', 'isalnum', 'count', 'get', 'keys', 'values', 'items', 'split', 'splitlines', 'join', 'format'}
+
+
+def scan_loops(repo: Repo, f: Func) -> List[Tuple[ast.While, bool, str]]:
+    """
+    Third narrow rule, for loops that scan a text from a position: `m = X.search(text, pos)` / `i = text.find(c, pos)` at the top of a `while`
+    body.  The scan gives the same answer as long as `text` and `pos` are what they were.  A way round the loop that rebinds neither is harmless
+    only if something else the decisions on that way read has changed; when every test on such a way reads nothing that the statements on it can
+    change, the next iteration finds the same match, takes the same way, and so on for ever.  Returns (loop, ok, explanation) per scanning loop.
+    """
+    from .cfg import CFG
+    out: List[Tuple[ast.While, bool, str]] = []
+    if isinstance(f.node, ast.Lambda):
+        return out
+    cfg = None
+    for loop in f.walk():
+        if not isinstance(loop, ast.While):
+            continue
+        scan = None
+        for st in loop.body:
+            if isinstance(st, ast.Assign) and isinstance(st.value, ast.Call) and isinstance(st.value.func, ast.Attribute) and \
+                    st.value.func.attr in SCAN_METHODS and len(st.value.args) >= 2 and isinstance(st.value.args[1], ast.Name):
+                scan = st
+                break
+        if scan is None:
+            continue
+        call = scan.value
+        assert isinstance(call, ast.Call) and isinstance(call.func, ast.Attribute)
+        pos = call.args[1].id  # type: ignore[attr-defined]
+        texts = _names(call.args[0]) | ({_root(call.func.value)} - {None})  # type: ignore[arg-type]
+        body_nodes = [n for st in loop.body for n in ast.walk(st)]
+        body_ids = {id(n) for n in body_nodes}
+
+        def rebinds(n: ast.AST, names: Set[str]) -> bool:
+            if isinstance(n, ast.Assign):
+                return any(isinstance(x, ast.Name) and x.id in names for t in n.targets for x in ast.walk(t) if isinstance(x, ast.Name) and isinstance(x.ctx, ast.Store))
+            if isinstance(n, (ast.AugAssign, ast.AnnAssign)):
+                return isinstance(n.target, ast.Name) and n.target.id in names
+            return False
+        adv = [n for n in body_nodes if isinstance(n, ast.stmt) and n is not scan and rebinds(n, {pos} | texts)]
+        if cfg is None:
+            cfg = CFG(f)
+        fwd = cfg.reachable(loop, avoid_nodes=adv, no_exc=True)
+        S = [n for n in body_nodes if isinstance(n, (ast.stmt, ast.ExceptHandler)) and id(n) in fwd and id(n) in cfg.nodes and
+             id(loop) in cfg.reachable(n, avoid_nodes=adv, no_exc=True)]
+        if not S:
+            out.append((loop, True, f'every way round the loop rebinds `{pos}` (or the text) after `{norm(scan)[:50]}`'))
+            continue
+        sids = {id(n) for n in S} | {id(loop)}
+        tests = [l[0] for n in S + [loop] for (t, l, k) in cfg.succ.get(id(n), []) if l is not None and id(t) in sids]
+        # what the statements on the non-advancing ways may change
+        changed: Set[str] = set()
+        assigns: List[Tuple[str, ast.AST]] = []
+        unknown = False
+        for n in S:
+            parts: List[ast.AST]
+            if isinstance(n, (ast.If, ast.While)):
+                parts = [n.test]
+            elif isinstance(n, (ast.For, ast.AsyncFor, ast.With, ast.AsyncWith, ast.Try, ast.ExceptHandler)):
+                unknown = True          # iteration / context managers / handlers on the way: state we do not model
+                break
+            else:
+                parts = [n]
+            for part in parts:
+                for x in ast.walk(part):
+                    if isinstance(x, ast.Call):
+                        stable = (isinstance(x.func, ast.Name) and x.func.id in PURE_BUILTINS) or (isinstance(x.func, ast.Attribute) and x.func.attr in STABLE_METHODS)
+                        if not stable:
+                            if isinstance(x.func, ast.Attribute):
+                                r = _root(x.func.value)
+                                if r:
+                                    changed.add(r)
+                            for a in list(x.args) + [k.value for k in x.keywords]:
+                                changed |= _names(a)
+                    elif isinstance(x, (ast.Attribute, ast.Subscript)) and isinstance(x.ctx, (ast.Store, ast.Del)):
+                        r = _root(x)
+                        if r:
+                            changed.add(r)
+                    elif isinstance(x, (ast.Yield, ast.YieldFrom, ast.Await)):
+                        pass                # a resumption cannot rebind the locals of this frame
+                    elif isinstance(x, ast.NamedExpr) and isinstance(x.target, ast.Name):
+                        assigns.append((x.target.id, x.value))
+            if isinstance(n, ast.Assign):
+                for t in n.targets:
+                    for x in ast.walk(t):
+                        if isinstance(x, ast.Name) and isinstance(x.ctx, ast.Store):
+                            assigns.append((x.id, n.value))
+            elif isinstance(n, ast.AugAssign) and isinstance(n.target, ast.Name):
+                changed.add(n.target.id)
+            elif isinstance(n, ast.AnnAssign) and n.value is not None and isinstance(n.target, ast.Name):
+                assigns.append((n.target.id, n.value))
+        if unknown:
+            out.append((loop, True, 'a non-advancing way round the loop passes statements that are not modelled: may progress'))
+            continue
+        again = True
+        while again:
+            again = False
+            for name, v in assigns:
+                if name not in changed and (_names(v) & changed or any(isinstance(c, ast.Call) and not (
+                        (isinstance(c.func, ast.Name) and c.func.id in PURE_BUILTINS) or (isinstance(c.func, ast.Attribute) and c.func.attr in STABLE_METHODS)) for c in ast.walk(v))):
+                    changed.add(name)
+                    again = True
+        read = set().union(*[_names(t) for t in tests]) if tests else set()
+        opaque_test = any(isinstance(c, ast.Call) and not ((isinstance(c.func, ast.Name) and c.func.id in PURE_BUILTINS) or
+                                                           (isinstance(c.func, ast.Attribute) and c.func.attr in STABLE_METHODS)) for t in tests for c in ast.walk(t))
+        moving = sorted(read & changed)
+        if moving or opaque_test:
+            out.append((loop, True, f'a way round the loop keeps `{pos}`, but {", ".join(moving) or "a call in a test"} may change on it: may progress'))
+            continue
+        first = min(S, key=lambda n: (getattr(n, 'lineno', 0), getattr(n, 'col_offset', 0)))
+        last = max((n for n in S if not isinstance(n, (ast.If, ast.While))), key=lambda n: getattr(n, 'lineno', 0), default=first)
+        out.append((loop, False,
+                    f'a way round the loop (through `{norm(last)[:50]}`, line {getattr(last, "lineno", "?")}) rebinds neither `{pos}` nor the text scanned by `{norm(scan)[:50]}`, '
+                    f'and nothing its tests read ({", ".join(sorted(read)) or "-"}) can change on it: the next iteration finds the same match and takes the same way - the '
+                    'loop never ends (and whatever it appends to grows without bound)'))
+    return out
